@@ -131,6 +131,7 @@ func (c *containerServer) sendLoop() {
 			if !ok {
 				return
 			}
+			verifEvent("cont", "send", verifReplyKind(rep.Reply, rep.Msg))
 			err := c.socket.SendMsg(rep.Reply, rep.Msg)
 			for _, f := range rep.FileToClose {
 				f.Close()
@@ -139,7 +140,6 @@ func (c *containerServer) sendLoop() {
 				c.socketError(err)
 				return
 			}
-			verifEvent("cont", "send", verifReplyKind(rep.Reply, rep.Msg))
 			if rep.Done != nil {
 				close(rep.Done)
 			}
